@@ -30,6 +30,18 @@ Definition quantifiable (u : bool) (l : list N) : bool :=
   | _ => false
   end.
 
+(* backslash x as an atom: CharacterClassEscape, ControlEscape or IdentityEscape[?U] *)
+Definition escape_ok (u : bool) (x : N) : bool :=
+  character_class_escape x || control_escape x || identity_escape u x.
+
+(* backslash AtomEscape *)
+Definition sp_escape (u : bool) (l : list N) : SR bool :=
+  match l with
+  | c :: x :: r' => if c =? g_backslash then (if escape_ok u x then SOk true r' else SErr) else SOk false l
+  | [c] => if c =? g_backslash then SErr else SOk false l
+  | [] => SOk false l
+  end.
+
 Section Knot.
 Variable u : bool.
 Variable sdisj : list N -> SR unit.
@@ -48,6 +60,11 @@ Definition sp_assertion (l : list N) : SR bool :=
   | c :: r =>
       if c =? g_caret then SOk true r
       else if c =? g_dollar then SOk true r
+      else if c =? g_backslash then
+        match r with
+        | x :: r' => if assertion_escape x then SOk true r' else SOk false l
+        | [] => SOk false l
+        end
       else if c =? g_lparen then
         match r with
         | q :: r1 =>
@@ -74,6 +91,7 @@ Definition sp_atom (l : list N) : SR bool :=
   | c :: r =>
       if negb (syntax_character c) then SOk true r
       else if c =? g_dot then SOk true r
+      else if c =? g_backslash then sp_escape u l
       else if c =? g_lparen then
         match r with
         | q :: r' =>
@@ -154,12 +172,19 @@ Definition sp_pattern (u : bool) (l : list N) : SR unit :=
 Definition recognises (u : bool) (l : list N) : bool := match sp_pattern u l with SOk _ _ => true | _ => false end.
 
 (* ---- the fragment ----
-   alphabet: every pattern character, and the nine structural characters  . | ( ) ? * + ^ $ ;
-   context condition: `(?<` is followed by `=` or `!` (a look-behind, not a named group, which is outside the fragment) *)
-Definition frag_char (c : N) : bool :=
+   A left-to-right scan of the units:
+     a backslash must be followed by a unit other than a decimal digit and c k x u p P (back-references, control
+         letters, named references, hex/unicode/property escapes are outside the fragment); the escaped unit is skipped;
+     every other unit is a pattern character or one of  . | ( ) ? * + ^ $  (a bare bracket or brace is outside);
+     `(?<` is followed by `=` or `!` (a look-behind, not a named group).
+   chars_ok (all that the grammar side needs): without u no unit is a closing bracket or a brace at all (Annex B would
+   admit a bare one as ExtendedPatternCharacter; the fragment has them only with u, escaped). *)
+Definition plain_char (c : N) : bool :=
   negb (syntax_character c)
   || existsb (N.eqb c) [g_dot; g_bar; g_lparen; g_rparen; g_question; g_star; g_plus; g_caret; g_dollar].
-Definition chars_ok (l : list N) : bool := forallb frag_char l.
+Definition is_dec_digit (c : N) : bool := (48 <=? c) && (c <=? 57).
+Definition allowed_after_backslash (x : N) : bool :=
+  negb (is_dec_digit x) && negb (existsb (N.eqb x) [99; 107; 120; 117; 112; 80]).
 Definition local_ok (c : N) (r : list N) : bool :=
   match r with
   | c1 :: c2 :: r' =>
@@ -168,6 +193,15 @@ Definition local_ok (c : N) (r : list N) : bool :=
       else true
   | _ => true
   end.
-Fixpoint ctx_ok (l : list N) : bool :=
-  match l with [] => true | c :: r => local_ok c r && ctx_ok r end.
-Definition in_fragment (l : list N) : bool := chars_ok l && ctx_ok l.
+(* esc = the previous unit was an (unescaped) backslash *)
+Fixpoint scan (esc : bool) (l : list N) : bool :=
+  match l with
+  | [] => negb esc
+  | c :: r =>
+      if esc then allowed_after_backslash c && scan false r
+      else if c =? g_backslash then scan true r
+      else plain_char c && local_ok c r && scan false r
+  end.
+Definition no_brace (c : N) : bool := negb ((c =? g_rbracket) || (c =? g_lbrace) || (c =? g_rbrace)).
+Definition chars_ok (u : bool) (l : list N) : bool := u || forallb no_brace l.
+Definition in_fragment (u : bool) (l : list N) : bool := scan false l && chars_ok u l.
